@@ -692,8 +692,8 @@ def run(chk, replay=None):
         except Skip as ex:
             chk.case(key_lines, False)
             chk.count('degenerate', ex.args[0])
-            if ex.args[0] == 'not-canonicalised' and len(chk.coverage['correspondence']['diagnostics']) < 8:
-                chk.coverage['correspondence']['diagnostics'].append('%s | %s' % (ex.args[1][:200], '; '.join(case['lcapy'])))
+            if ex.args[0] in ('not-canonicalised', 'nan-in-result', 'free-symbols-left') and len(chk.coverage['correspondence']['diagnostics']) < 12:
+                chk.coverage['correspondence']['diagnostics'].append('%s: %s | %s | subs %s' % (ex.args[0], ex.args[1][:200], '; '.join(case['lcapy']), case.get('subs')))
             return
         except common.TimeLimit:
             chk.case(key_lines, False)
